@@ -452,6 +452,19 @@ bool prop_C14(Tape& t, Report& rep)
     bool sawHit = false, sawCollision = false, sawClearPawnless = false, cleared = false;
     std::vector<ref::Pos> seen;
     uint64_t fp = 0;
+    // The pawn cache is allowed to confuse two structures whose full 64-bit keys are equal (the engine's accepted risk).
+    // With full-entropy keys that never happens; shards that run with a Zobrist entropy window (opt zmask: all keys are
+    // zero outside a 24-bit window, so any table that indexes or verifies with only part of the key sees every pair
+    // collide) do produce such pairs now and then: a history that contains one is dropped and counted.
+    std::unordered_map<uint64_t, std::string> pawnKeys;
+    auto fullKeyCollision = [&](const ref::Pos& p, const Position& pos) {
+        std::string structure;
+        for (int s = 0; s < 64; ++s)
+            if (ref::lower(p.b[s]) == 'p') structure += char('0' + s / 8), structure += char('a' + s % 8), structure += p.b[s];
+        auto ins = pawnKeys.emplace(pos.pawn_hash(), structure);
+        return !ins.second && ins.first->second != structure;
+    };
+    if (!opt("zmask").empty()) rep.cls("c14:case_with_zobrist_entropy_window");
     for (int i = 0; i < nops; ++i)
     {
         int op = t.weighted({5, 2, 2, 2, 2, 1});
@@ -538,6 +551,11 @@ bool prop_C14(Tape& t, Report& rep)
         }
         seen.push_back(p);
         Position pos(ref::to_fen(p));
+        if (fullKeyCollision(p, pos))
+        {
+            rep.cls("c14:excluded_full_pawn_key_collision");
+            return true;
+        }
         Value w = warm->score(pos);
         Value f = fresh_score(p);
         rep.eval();
@@ -587,6 +605,11 @@ bool prop_C14(Tape& t, Report& rep)
             moves += " " + m.uci();
             if (!t.chance(1, 2) && !pawnMove) continue;
             if (ref::insufficient_material(rp)) continue;
+            if (fullKeyCollision(rp, played))
+            {
+                rep.cls("c14:excluded_full_pawn_key_collision");
+                return true;
+            }
             Value w = warm->score(played);
             Value f = fresh_score(rp);
             rep.eval();
